@@ -515,5 +515,16 @@ def r15_11(ctx):
         raise AnalysisError("steps of _recursively_perform_action not found")
 
 
+def r15_12(ctx):
+    """R15.12 no request trips over the server's own bookkeeping: in kconfserver.core every local bound by plain assignments is
+    assigned before it is read on every path, or under conditions that still hold at the read (the per-version `defaults`
+    snapshots) - an UnboundLocalError has no handler and ends the server."""
+    from .common import definitely_assigned
+    n = definitely_assigned(ctx, ["kconfserver.core"], "the server dies instead of answering",
+                            exempt={"main/env_pairs": "start-up code, not a request; the only path without the assignment ends in log.die(), which exits"})
+    if n < 8:
+        raise AnalysisError(f"only {n} functions with plain locals examined in kconfserver.core")
+
+
 def rules():
-    return [("R15.11", r15_11, 2), ("R15.10", r15_10, 2), ("R15.9", r15_9, 4), ("R15.7", r15_7, 1), ("R15.1", r15_1, 4), ("R15.2", r15_2, 2), ("R15.3", r15_3, 3), ("R15.4", r15_4, 2), ("R15.5", r15_5, 3), ("R15.6", r15_6, 2), ("R15.8", r15_8, 6)]
+    return [("R15.12", r15_12, 8), ("R15.11", r15_11, 2), ("R15.10", r15_10, 2), ("R15.9", r15_9, 4), ("R15.7", r15_7, 1), ("R15.1", r15_1, 4), ("R15.2", r15_2, 2), ("R15.3", r15_3, 3), ("R15.4", r15_4, 2), ("R15.5", r15_5, 3), ("R15.6", r15_6, 2), ("R15.8", r15_8, 6)]
